@@ -1,16 +1,17 @@
 import CSSVerif.Queue
+import CSSVerif.DoLevel
 def showWP (w : WP) : String :=
   match w.work with
   | .inferral => s!"{w.label}:inf"
   | .initial i => s!"{w.label}:init:{i}"
   | .expansion j i => s!"{w.label}:exp:{j}:{i}"
 def fuelOf (_q : Q) : Nat := 100000
-partial def doLevel (p : Pack) (start : Nat) (q : Q) (acc : List String) : Q × List String :=
-  if q.sizes.length != start then (q, acc) else
-  match Q.next p (fuelOf q) q with
-  | (q', .yield w) => doLevel p start q' (acc ++ [showWP w])
-  | (q', .stop) => if q'.sizes.length == start then (q', acc ++ ["nomore"]) else (q', acc)
-  | (q', .fuel) => (q', acc ++ ["FUEL"])
+/-- `do_level` through the proven model `doLevelF` (DoLevel.lean) -/
+def doLevel (p : Pack) (start : Nat) (q : Q) (_acc : List String) : Q × List String :=
+  match doLevelF p (fuelOf q) start 100000 q [] with
+  | (q', out, .advanced) => (q', out.map showWP)
+  | (q', out, .noMore) => (q', out.map showWP ++ ["nomore"])
+  | (q', out, .fuel) => (q', out.map showWP ++ ["FUEL"])
 def showQ (q : Q) : String :=
   s!"W{q.working} N{q.nextLevel} C{q.curr} I{q.ignore.mergeSort} S{q.sizes} X{q.infExp.mergeSort} Y{q.initExp.mergeSort} G{q.staging.map showWP}"
 partial def loop (h : IO.FS.Stream) (p : Pack) (q : Q) : IO Unit := do
